@@ -13,7 +13,7 @@ pub const DEF: PropDef = PropDef {
     id: "C06",
     jobs,
     required,
-    rule: "one case = one frequency profile (symbol -> count) realised in 1..3 raw source containers, HuffmanContainer::merge_regions over them, and a sequence of items pushed into the result. Code lengths are measured as the bit width of the index returned for a one-symbol item; then: every length >= 1, Kraft sum <= 1, sum(count*length) equals the optimal prefix-code cost computed by an independent reference; every pushed item occupies exactly the sum of its symbols' code lengths in bits (index end - start); the item, its predecessor, the first item and a random earlier item are decoded (bounded iteration, into_owned) after every push and all items at the end; a symbol outside the statistics must be refused by a panic at push; default and cleared containers round-trip arbitrary symbols; Push<read item> from raw and encoded containers. Bounded-exhaustive: all profiles over 1..K symbols with counts from {1,2,3,5,8}, each with all items of length <= 3 and all pairs of items of length <= 2. Special profiles: 2^k and 2^k+1 equal counts, Fibonacci counts over 12..22 symbols (codes up to 21 bits), 257..1000 equiprobable u16 symbols, three generations of merge_regions. Non-trivial = at least one encoded item of >= 2 symbols decoded after a later push; distinct = distinct (profile, item sequence).",
+    rule: "one case = one frequency profile (symbol -> count) realised in 1..3 raw source containers, HuffmanContainer::merge_regions over them, and a sequence of items pushed into the result. Code lengths are measured as the bit width of the index returned for a one-symbol item; then: every length >= 1, Kraft sum <= 1, sum(count*length) equals the optimal prefix-code cost computed by an independent reference; every pushed item occupies exactly the sum of its symbols' code lengths in bits (index end - start); the item, its predecessor, the first item and a random earlier item are decoded (bounded iteration, into_owned) after every push and all items at the end; a symbol outside the statistics must be refused by a panic at push; default and cleared containers round-trip arbitrary symbols; Push<read item> from raw and encoded containers. Bounded-exhaustive: all profiles over 1..K symbols with counts from {1,2,3,5,8}, each with all items of length <= 3 (thorough: 4) and all pairs of items of length <= 2. Special profiles: 2^k and 2^k+1 equal counts, Fibonacci counts over 12..22 symbols (codes up to 21 bits), 257..1000 equiprobable u16 symbols, three generations of merge_regions. Non-trivial = at least one encoded item of >= 2 symbols decoded after a later push; distinct = distinct (profile, item sequence).",
     assumptions: &[
         "HuffmanContainer::reserve_regions and ::heap_size are todo!() in the crate and are not called",
         "the state after a refused push is unspecified; nothing is read from the container afterwards",
@@ -37,13 +37,13 @@ fn jobs(plan: &Plan) -> Vec<Job> {
             }
         }
     }
-    for h in 0..t.pick(28, 60, 2) {
+    for h in 0..t.pick(28, 420, 2) {
         v.push(standalone("huffman", "special", h, special));
     }
-    for h in 0..t.pick(400, 3000, 3) {
+    for h in 0..t.pick(400, 40000, 3) {
         v.push(standalone("huffman", "random", h, random));
     }
-    for h in 0..t.pick(40, 200, 1) {
+    for h in 0..t.pick(40, 2000, 1) {
         v.push(standalone("huffman", "raw", h, raw_mode));
     }
     v
@@ -374,7 +374,8 @@ fn exhaustive(ctx: &mut Ctx) {
         let mut ok = e.measure(ctx, &profile);
         // all items of length <= 3, each preceded by whatever the cursor alignment happens to be
         let mut items: Vec<Vec<u8>> = vec![vec![]];
-        for len in 1..=3usize {
+        let maxitem = if ctx.tier == Tier::Thorough { 4usize } else { 3 };
+        for len in 1..=maxitem {
             for c in 0..k.pow(len as u32) {
                 let mut it = Vec::new();
                 let mut y = c;
